@@ -89,6 +89,10 @@ static void body(void) {
     rm_free(G); vx_require(minsd > 0);
     double f = (double)(0.5L / minsd); for (int i = 0; i < n * ptot; i++) E0_[i] *= f; }
   for (int i = 0; i < n; i++) for (int j = 0; j < ptot; j++) X_[i * ptot + j] = E0_[i * ptot + j] + OFFS[j % 4];
+  /* one variable without spread inside a block of >= 2 variables (preprocessing switches it off; the block is still
+   * divided by the square root of its NUMBER OF VARIABLES, as the statement says) */
+  { int cc = vx_choose_dev("constcol", 2); if (cc) { int b0 = -1; for (int b = 0; b < nb && b0 < 0; b++) if (w[b] >= 2) b0 = b; vx_require(b0 >= 0);
+      for (int i = 0; i < n; i++) X_[i * ptot + col0[b0] + w[b0] - 1] = 2.5; } }
   tensor *x; NewTensor(&x, (size_t)nb);
   for (int b = 0; b < nb; b++) { NewTensorMatrix(x, (size_t)b, (size_t)n, (size_t)w[b]); for (int i = 0; i < n; i++) for (int j = 0; j < w[b]; j++) x->m[b]->data[i][j] = X_[i * ptot + col0[b] + j]; }
 
